@@ -419,3 +419,50 @@ class OpaqueIter:
 
     def at(self, k):
         return OpaqueElem(self.seq, k)
+
+
+class FieldBuf:
+    """ghost field-list view of segno's bit Buffer: the stream is the concatenation of
+    `count` fields (value, width), each written most significant bit first; bitlen is
+    the total number of bits.  Buffer.append_bits is verified against this view at the
+    bit level (obligations C01.append_bits.*), the packers then reason about fields."""
+    tname = 'bytearray'
+
+    def __init__(self, vals=None, widths=None, count=0, bitlen=0):
+        self.vals = vals if vals is not None else z3.K(z3.IntSort(), z3.IntVal(0))
+        self.widths = widths if widths is not None else z3.K(z3.IntSort(), z3.IntVal(0))
+        self.count = count
+        self.bitlen = bitlen
+
+    def snapshot(self):
+        return FieldBuf(self.vals, self.widths, self.count, self.bitlen)
+
+    def append_field(self, val, width):
+        self.vals = z3.Store(self.vals, _z(self.count), _z(val))
+        self.widths = z3.Store(self.widths, _z(self.count), _z(width))
+        self.count = self.count + 1
+        self.bitlen = self.bitlen + width
+
+    def val_at(self, g):
+        return SInt(z3.Select(self.vals, _z(g)))
+
+    def width_at(self, g):
+        return SInt(z3.Select(self.widths, _z(g)))
+
+    def havoc(self, interp, tag='fb'):
+        self.vals = z3.Array(fresh_name(tag + '_vals'), z3.IntSort(), z3.IntSort())
+        self.widths = z3.Array(fresh_name(tag + '_widths'), z3.IntSort(), z3.IntSort())
+        self.count = interp.fresh_int(tag + '_count', 0, None)
+        self.bitlen = interp.fresh_int(tag + '_bitlen', 0, None)
+
+    def __add__(self, o):
+        if not isinstance(o, FieldBuf):
+            return NotImplemented
+        j = z3.Int(fresh_name('j'))
+        c1 = _z(self.count)
+        vals = z3.Lambda([j], z3.If(j < c1, z3.Select(self.vals, j), z3.Select(o.vals, j - c1)))
+        widths = z3.Lambda([j], z3.If(j < c1, z3.Select(self.widths, j), z3.Select(o.widths, j - c1)))
+        return FieldBuf(vals, widths, self.count + o.count, self.bitlen + o.bitlen)
+
+    def __len__(self):
+        raise Unsupported('native len() of field buffer')
